@@ -700,7 +700,7 @@ func (x *xexec) checkSignature(msg, sig []byte, idx uint32) {
 		// and compare it with the real leaf of that index
 		if xmss.VerifWOTSCheck == nil {
 			x.res.Probes.Add("wots-part-hook-unavailable", 1)
-		} else if idx < 2 || idx%61 == 0 || idx >= x.leaves-1 || x.wotsChecks < 4 {
+		} else if idx < 2 || idx%61 == 0 || idx >= x.leaves-1 || x.wotsChecks < 8 || idx&0xff == 0 {
 			x.wotsChecks++
 			good := false
 			oc := guard(func() { good = xmss.VerifWOTSCheck(x.live, msg, sig, idx) })
